@@ -30,7 +30,7 @@ theorem alpha_bridge (P : Profiles ℝ) (z : ℕ → ℝ) (nz : ℕ) (lam p1 q1 
   simp only [Generated.alpha, alphaShoot, RC]
 
 theorem combine_bridge (al pm1 pm2 qm1 qm2 : ℂ) :
-    (Generated.combineP al pm1 pm2, Generated.combineQ al qm1 qm2) =
+    (Generated.combineP RC al pm1 pm2, Generated.combineQ RC al qm1 qm2) =
       (al * pm1 + pm2, al * qm1 + qm2) := by
   simp only [Generated.combineP, Generated.combineQ]
 
@@ -56,7 +56,7 @@ theorem anaMean_bridge (P : Profiles ℝ) (z : ℕ → ℝ) (nz : ℕ) (bg q00 :
 noncomputable def haloOf (req : SolveReq ℝ) : ℝ := (geom RC req).halo
 
 theorem haloDefault_bridge (req : SolveReq ℝ) (h : req.halo = none) :
-    Generated.haloDefault req.xmx req.ymx = haloOf req := by
+    Generated.haloDefault RC req.xmx req.ymx = haloOf req := by
   simp only [Generated.haloDefault, haloOf, geom, h]
 
 theorem haloExplicit (req : SolveReq ℝ) (x : ℝ) (h : req.halo = some x) : haloOf req = x := by
@@ -95,7 +95,7 @@ theorem shiftFootprint_bridge (req : SolveReq ℝ) (hfp : req.footprint = true) 
 /-- dispersion-mode re-centring phase and its guard -/
 theorem shiftRecentre_bridge (req : SolveReq ℝ) (hfp : req.footprint = false) (a b : ℕ) :
     let g := geom RC req
-    (if Generated.recentreGuard req.xm req.ym then
+    (if Generated.recentreGuard RC req.xm req.ym then
       Generated.shiftRecentre RC (waveX RC g b) (waveY RC g a) req.xm req.ym req.xmx req.ymx
      else 1.0) = shiftFactor RC req g a b := by
   simp only [Generated.shiftRecentre, Generated.recentreGuard, shiftFactor, hfp, RC, gt_iff_lt,
